@@ -111,12 +111,14 @@ def check(run):
         if any("locked=true" in l for l in out):
             run.violation("%s with read #%d failing: read lock still held after the call" % (cmd[:50], k), {"kind": "lock-leak", "db": db.path, "command": cmd, "fail_read": k})
         run.nontrivial(cid)
-    # phase 3: pages that always fail: model vs implementation (independent of cache behaviour)
+    # phase 3: pages that always fail: model vs implementation (independent of cache behaviour).  Page 1 is left out: the code
+    # re-reads the header at the start of every transaction, which the page-store model of these low level commands does not do
+    # (header re-validation is C08's / C15's state machine)
     lines, meta3 = [], {}
     for i, db in enumerate(dbs):
         lines.append(("open%d" % i, "db %s" % db.path))
         npages = len(db.data) // db.page_size
-        pages = sorted(set([2, 3, npages] + [rng.randrange(1, npages + 1) for _ in range(10 if quick else 40)] + sqlfmt.overflow_pages(db.data, db.page_size)[:4]))
+        pages = sorted(set([2, 3, npages] + [rng.randrange(2, npages + 1) for _ in range(10 if quick else 40)] + sqlfmt.overflow_pages(db.data, db.page_size)[:4]))
         cmds = [c for (j, oid), c in oplist.items() if j == i]
         for pgno in pages:
             lines.append(("%d/fail%d" % (i, pgno), "fail %d" % pgno))
